@@ -809,6 +809,24 @@ fn gen(seed: u64, n: usize, profile: &str) {
                     }
                     Cmd::Chain(true, g.opn(), g.expr(), st, g.tag())
                 };
+                if g.r.chance(1, 5) {
+                    // fan-out: the plain two-stage chain stream(a).then_stream(|x| stream(b)) with 9-16 items delivered on the
+                    // outer stream while the inner streams stay open (items on some of them in between)
+                    let c = Cmd::Chain(true, g.opn(), g.expr(), vec![Stage::ThenStream(g.opn())], g.tag());
+                    let mut h = vec![];
+                    let n = 9 + g.r.below(8);
+                    for i in 0..n {
+                        h.push(list(vec![atom("res"), atom(0), atom(100 + i)]));
+                        if i > 0 && g.r.chance(1, 3) {
+                            h.push(list(vec![atom("res"), atom(1 + g.r.below(i)), atom(200 + i)]));
+                        }
+                    }
+                    for k in 0..(n + 1) {
+                        h.push(list(vec![atom("drop"), atom(k)]));
+                    }
+                    writeln!(out, "{}", list(vec![atom("ext"), c.sexp(), list(h)])).unwrap();
+                    continue;
+                }
                 let c = match g.r.below(4) {
                     0 => chain(&mut g),
                     1 => Cmd::Then(Box::new(chain(&mut g)), Box::new(Cmd::Event(10, Expr::Lit(1)))),
@@ -854,6 +872,20 @@ fn gen(seed: u64, n: usize, profile: &str) {
                     }
                 }
                 h.push(list(vec![atom("poll")]));
+                list(vec![atom("ext"), c.sexp(), list(h)])
+            }
+            "fanout" => {
+                // the plain two-stage chain stream(a).then_stream(|x| stream(b)): 9-24 items on the outer stream while the inner
+                // streams stay open; judged by the fan-out clause of the `ext` oracle (one new inner stream per item)
+                let c = Cmd::Chain(true, g.opn(), g.expr(), vec![Stage::ThenStream(g.opn())], g.tag());
+                let mut h = vec![];
+                let n = 9 + g.r.below(16);
+                for i in 0..n {
+                    h.push(list(vec![atom("res"), atom(0), atom(100 + i)]));
+                    if i > 0 && g.r.chance(1, 3) {
+                        h.push(list(vec![atom("res"), atom(1 + g.r.below(i)), atom(200 + i)]));
+                    }
+                }
                 list(vec![atom("ext"), c.sexp(), list(h)])
             }
             "law" => {
